@@ -146,9 +146,7 @@ func cloneNonrev(p *revocation.Proof) *revocation.Proof {
 	}
 	q := &revocation.Proof{Cr: cp(p.Cr), Cu: cp(p.Cu), SignedAccumulator: cloneSAcc(p.SignedAccumulator), Responses: map[string]*big.Int{}}
 	for k, v := range p.Responses {
-		if k == "alpha" {
-			continue // not transmitted
-		}
+		// "alpha" included: honest provers do not send it, but the map travels as it is and an adversary may
 		q.Responses[k] = cp(v)
 	}
 	return q
